@@ -236,6 +236,9 @@ def identity_class(f, init, depth=0):
         fn = n.get('fn', '')
         if 'numeric_limits' in fn:
             return {'infinity': '+inf', 'max': 'max', 'lowest': 'lowest', 'min': None}.get(T.short(fn))
+        if T.short(fn) in ('make_pair', 'make_tuple') and n.get('args'):
+            cs = [identity_class(f, a, depth + 1) for a in n['args']]
+            return '/'.join(sorted(set(cs))) if all(cs) else None
         return None
     if k == 'var' and n.get('s') == 'l':
         defs = []
